@@ -18,6 +18,7 @@ class FileLog:
         self.events = []
         self.active = False
         self.tag = None
+        self.on_event = None
         if FileLog._installed is None:
             FileLog._installed = []
             sys.addaudithook(FileLog._hook)
@@ -49,6 +50,8 @@ class FileLog:
             if isinstance(flags, int) and flags & (os.O_WRONLY | os.O_RDWR | os.O_CREAT | os.O_TRUNC | os.O_APPEND):
                 write = True
             self.events.append(("open-w" if write else "open-r", full, self.tag))
+            if self.on_event is not None:
+                self.on_event(self.events[-1])
         elif event == "os.rename":
             self.events.append(("rename", full, self.tag))
             dst = args[1]
@@ -214,7 +217,7 @@ class Failpoints:
         self.k = None
         self.exc = None
         self.fired = None
-        self.stop_at = None  # callable(events) -> bool : stop counting (e.g. after dest opened)
+        self.action = None
         self.frozen = False
 
     def _claim(self):
@@ -237,14 +240,18 @@ class Failpoints:
         if self.k is not None and len(self.events) - 1 == self.k:
             self.fired = (rel, line)
             self._active = False
+            if self.action is not None:
+                self.action()
+                return None
             raise self.exc
         return None
 
-    def run(self, fn, pred=None, k=None, exc=None):
+    def run(self, fn, pred=None, k=None, exc=None, action=None):
         """Run fn() with tracing; returns (outcome, value_or_exception, events)."""
         self._claim()
         mon = sys.monitoring
         self.pred, self.k, self.exc = pred, k, exc or InjectedFault("injected fault")
+        self.action = action
         self.events, self.fired, self.frozen = [], None, False
         self._active = True
         mon.set_events(FP_TOOL, mon.events.LINE)
